@@ -385,6 +385,37 @@ theorem loopsOkList_of_statements : ∀ (t : Stmt) (l : List Stmt), loopsOk t = 
     simp only [statementsOf, pure, Except.pure, Except.ok.injEq] at h; subst h; simpa [loopsOk] using h1
   | .loop n b, l, h1, h => loopsOkList_of_iter b l (by simp only [loopsOk, Bool.and_eq_true] at h1; exact h1.2) (by simpa [statementsOf] using h)
 
+/-! ### the name check of `_choose_bounding_gate`, factored out -/
+
+/-- the pass once the bounding definitions are chosen -/
+def expandCore (p m : GateDef) (c : Circuit) : M Circuit := do
+  let macros ← visitMacros p m c.macros
+  let body ← visitStmt p m c.body
+  let stmts ← statementsOf body
+  pure { usepulses := c.usepulses, constants := c.constants, registers := c.registers,
+         macros := macros, natives := c.natives, body := .block false false (.int 1) stmts }
+
+theorem expandSubcircuits_eq (prep meas : Option GateDefChoice) (c : Circuit) :
+    expandSubcircuits prep meas c =
+      if boundingClash prep "prepare_all" c then .error (.jaqal "bounding-name-is-a-macro")
+      else if boundingClash meas "measure_all" c then .error (.jaqal "bounding-name-is-a-macro")
+      else expandCore (chooseBounding prep "prepare_all" c) (chooseBounding meas "measure_all" c) c := by
+  unfold expandSubcircuits chooseBoundingM expandCore
+  cases boundingClash prep "prepare_all" c <;> cases boundingClash meas "measure_all" c <;> rfl
+
+theorem expandSubcircuits_noclash {prep meas : Option GateDefChoice} {c : Circuit}
+    (hp : boundingClash prep "prepare_all" c = false) (hm : boundingClash meas "measure_all" c = false) :
+    expandSubcircuits prep meas c =
+      expandCore (chooseBounding prep "prepare_all" c) (chooseBounding meas "measure_all" c) c := by
+  rw [expandSubcircuits_eq]; simp [hp, hm]
+
+theorem expandSubcircuits_ok_noclash {prep meas : Option GateDefChoice} {c c' : Circuit}
+    (h : expandSubcircuits prep meas c = .ok c') :
+    boundingClash prep "prepare_all" c = false ∧ boundingClash meas "measure_all" c = false := by
+  rw [expandSubcircuits_eq] at h
+  cases hp : boundingClash prep "prepare_all" c <;> cases hm : boundingClash meas "measure_all" c <;>
+    simp [hp, hm] at h <;> exact ⟨rfl, rfl⟩
+
 /-! ### error classes: every rejection is a `JaqalError` -/
 
 theorem mkLoop_class (c : Val) (b : Stmt) : JaqalOnly (mkLoop c b) := by
